@@ -22,7 +22,8 @@ RULE = ('each case is a HISTORY: 6-10 (thorough 25) logical inputs (cut, shared,
         'in a freshly forked process, under PYTHONHASHSEED in {0,1,2,random} (thorough: 12 seeds); all presentations of one '
         'logical input must agree; shared fragment libraries are deep-compared before/after every call; the numbering/naming '
         'invariants (keys 0..n-1, contiguous blocks in base order, atom names element+index unique per coarse node) are checked '
-        'by the post-state contract on every call. evaluations = resolver calls in histories + reference computations; '
+        'by the post-state contract on every call, and additionally on 3200 (thorough 60000) single resolutions of the common '
+        'resolver workload (cuts, shared atoms, virtual nodes, hierarchies with shared beads at coarse levels, polymer-style inputs). evaluations = resolver calls in histories + reference computations; '
         'distinct = distinct (logical input, presentation); non-trivial = every history.')
 ASSUMPTIONS = ['from_graph is given the graph read_cgsmiles returns for the base string, from_fragment_dicts the dictionaries read_fragments returns',
                'a forked child after importing cgsmiles stands for a fresh process']
@@ -32,7 +33,7 @@ MECHANISMS = [('cgsmiles.graph_utils', 'sort_nodes_by_attr'), ('cgsmiles.graph_u
 REQUIRED_COUNTERS = ['resolve_calls_observed', 'reference_digests']
 CASE_TIMEOUT = 3600      # one case is a whole history with reference runs in forked processes
 NSHARDS = {'quick': 16, 'thorough': 16}
-SIZES = {'quick': dict(histories=16, inputs=8, seeds=['0', '1', 'random']), 'thorough': dict(histories=160, inputs=25, seeds=['0', '1', '2', '3', '7', '42', '1234', 'random', 'random', 'random', 'random', 'random'])}
+SIZES = {'quick': dict(histories=16, inputs=8, plain=3200, seeds=['0', '1', 'random']), 'thorough': dict(histories=160, inputs=25, plain=60000, seeds=['0', '1', '2', '3', '7', '42', '1234', 'random', 'random', 'random', 'random', 'random'])}
 
 
 def setup():
@@ -126,6 +127,7 @@ def cases(seed, tier, shard, nshards):
         rng.shuffle(order)
         yield dict(inputs=inputs, order=order, seeds=cfg['seeds'], sampler_seed=rng.randrange(10 ** 6),
                    features=sorted({f for li in inputs for f in li['features']} | {'kind_' + li['kind'] for li in inputs}))
+    yield from MC.resolver_workload(rng, cfg['plain'] // nshards)
 
 
 class Shared:
@@ -183,6 +185,10 @@ def reference_digests(jobs, hashseed):
 
 
 def run(case):
+    if 'inputs' not in case:
+        # single resolutions of the common resolver workload: the numbering / naming invariants of the post-state contract
+        from . import poststate
+        return poststate.run('C12', case)
     import cgsmiles
     contracts.clear()
     viol = []
